@@ -288,7 +288,15 @@ def _inline_at(helper, body, rets, is_static, is_async, caller, st, call):
             # arguments must be simple (names / attributes / constants) so that substitution does not duplicate effects
             def _simple(a):
                 return isinstance(a, (ast.Name, ast.Attribute, ast.Constant)) or (isinstance(a, ast.Tuple) and all(_simple(x) for x in a.elts))
-            if not all(_simple(a) for a in mapping.values()):
+            def _fresh_literal(a):
+                return isinstance(a, (ast.List, ast.Dict, ast.Set)) and all(_simple(x) for x in ast.iter_child_nodes(a) if isinstance(x, ast.expr) and not isinstance(x, ast.expr_context))
+            uses = {}
+            for s_ in body:
+                for x in ast.walk(s_):
+                    if isinstance(x, ast.Name) and isinstance(x.ctx, ast.Load):
+                        uses[x.id] = uses.get(x.id, 0) + 1
+            # a fresh container literal ([] / {}) may be substituted when the parameter is read once (no second alias of the new object is needed)
+            if not all(_simple(a) or (_fresh_literal(a) and uses.get(p_, 0) <= 1) for p_, a in mapping.items()):
                 return False
             hl = _local_names(helper)
             tgt_names = set()
@@ -310,7 +318,7 @@ def _inline_at(helper, body, rets, is_static, is_async, caller, st, call):
             if rets:
                 ret_expr = new_body[-1].value
                 new_body = new_body[:-1]
-            for s in new_body:
+            for s in new_body + ([ret_expr] if ret_expr is not None else []):
                 for x in ast.walk(s):
                     if hasattr(x, "lineno"):
                         x.lineno = getattr(st, "lineno", x.lineno)
@@ -481,9 +489,16 @@ def _is_pure(e):
             continue
         if not isinstance(x, _PURE):
             return False
-        if isinstance(x, ast.Subscript) and not isinstance(x.slice, (ast.Constant, ast.Name)):
+        if isinstance(x, ast.Subscript) and not isinstance(x.slice, (ast.Constant, ast.Name)) and not _attr_chain(x.slice):
             return False
     return True
+
+
+def _attr_chain(e):
+    """a.b.c : an attribute chain rooted in a name (no calls, no subscripts)."""
+    while isinstance(e, ast.Attribute):
+        e = e.value
+    return isinstance(e, ast.Name)
 
 
 def inline_new_aliases(fn, reviewed_locals):
@@ -847,7 +862,27 @@ class _NextGen(ast.NodeTransformer):
         return node
 
 
+class _AssertRaise(ast.NodeTransformer):
+    """`if c: raise AssertionError(msg)` (no else) is the explicit spelling of `assert not c, msg`: the reviewed code uses asserts."""
+
+    def visit_If(self, n):
+        self.generic_visit(n)
+        if not n.orelse and len(n.body) == 1 and isinstance(n.body[0], ast.Raise) and n.body[0].cause is None:
+            exc = n.body[0].exc
+            msg = None
+            ok = False
+            if isinstance(exc, ast.Name) and exc.id == "AssertionError":
+                ok = True
+            elif isinstance(exc, ast.Call) and isinstance(exc.func, ast.Name) and exc.func.id == "AssertionError" and not exc.keywords and len(exc.args) <= 1:
+                ok = True
+                msg = exc.args[0] if exc.args else None
+            if ok:
+                return ast.copy_location(ast.Assert(test=_negate(n.test), msg=msg), n)
+        return n
+
+
 def lower_ifexp(tree):
+    tree = _AssertRaise().visit(tree)
     tree = _Match().visit(tree)
     tree = _Walrus().visit(tree)
     tree = _NextGen().visit(tree)
